@@ -1001,6 +1001,11 @@ func (e *Env) call(n *ast.CallExpr) tv {
 			evalFail("implements: unknown interface %s", exprString(n.Args[1]))
 		}
 		return tv{And(Neq(iv.Tag, IntLit(0)), e.eng.implTerm(iv.Tag, t)), nil}
+	case "asError": // asError(tag, payload): the value `x.(error)` (comma-ok form) of an interface value with that dynamic type and payload
+		et := types.Universe.Lookup("error").Type()
+		tg, pv := argT(0), argT(1)
+		ok := And(Neq(tg, IntLit(0)), e.eng.implTerm(tg, et))
+		return tv{IfaceV{Ite(ok, tg, IntLit(0)), Ite(ok, pv, IntLit(0))}, et}
 	case "tag":
 		iv, ok := arg(0).V.(IfaceV)
 		if !ok {
